@@ -13,6 +13,8 @@ NAME_POOLS = [
     ["c7", "c3", "c5", "c1", "c6", "c2", "c4"],
     ["w x", "q,r", "ab", "Ab", "aB", "z", "_"],
     ["Chris", "Peter", "Moon", "Jeanne", "Mala", "Tyler", "David"],
+    ["Anna", "Ann", "An", "Bob Jr", "Bob", "Bo", "nn"],                  # names that are substrings of each other
+    ["10", "1", "0", "12", "2", "21", "11"],                              # numeric-looking, substring-related
 ]
 
 W_INT = ["1", "2", "3", "5", "1", "1", "4", "10"]
@@ -148,6 +150,19 @@ FOUR_WAY = [
     [(["A", "B", "D", "C"], 2), (["D", "A", "B"], 2), (["B", "C", "A"], 2), (["C"], 2)],      # Borda A = B > C = D
     [(["D"], 3), (["B", "A", "C"], 3), (["C"], 3), (["A", "C", "D", "B"], 3)],                # Borda A = C > B = D
 ]
+
+
+def fine_secondary_tie(rng):
+    """Two candidates tied on first-place votes whose Borda scores differ by one part in 2^54: an exact
+    'borda' tiebreak separates them without any draw (a float comparison would not)."""
+    names = pick_names(rng, 3)
+    a, b, c = names
+    W = str(2 ** 53)
+    ballots = [{"r": [[a]], "w": W}, {"r": [[b]], "w": W}, {"r": [[c], [a]], "w": "1"}]
+    rng.shuffle(ballots)
+    cands = list(names)
+    rng.shuffle(cands)
+    return {"ballots": ballots, "cands": cands}, names
 
 
 def four_way_pair_tie(rng):
